@@ -282,7 +282,13 @@ class CallStack(deque):
         while self.refstack:
             if self.refstack[-1][0] == self.counter:
                 _, ref = self.refstack.pop()
-                cells.model.refgraph.add_edge(ref, node)
+                if cells.is_cached:
+                    cells.model.refgraph.add_edge(ref, node)
+                elif self and self.idxstack[-1] >= 0:
+                    # References read by uncached cells are attributed
+                    # to the nearest cached caller, which holds the value.
+                    cells.model.refgraph.add_edge(
+                        ref, self[self.idxstack[-1]])
             else:
                 break
 
